@@ -1133,6 +1133,10 @@ func (mgr *Manager) DelTag(name string) error {
 	return <-c
 }
 
+// plainIDListRegex matches the definition of a mark tag that is a plain list
+// of stream ids, the only form that more ids can be appended to as text.
+var plainIDListRegex = regexp.MustCompile(`^id:[0-9]+(,[0-9]+)*$`)
+
 func UpdateTagOperationMarkAddStream(streams []uint64) UpdateTagOperation {
 	s := make([]uint64, 0, len(streams))
 	s = append(s, streams...)
@@ -1359,8 +1363,13 @@ func (mgr *Manager) UpdateTag(name string, operation UpdateTagOperation) error {
 						}
 						if newTag.definition == "id:-1" {
 							newTag.definition = markQuery
-						} else {
+						} else if plainIDListRegex.MatchString(newTag.definition) {
 							newTag.definition = fmt.Sprintf("%s,%s", newTag.definition, markQuery[3:])
+						} else {
+							// the definition writes its set of ids in some other way (parentheses,
+							// "or", ranges, several filters): appending to its text would change
+							// its meaning or leave something that is not a query
+							newTag.definition = fmt.Sprintf("(%s) or %s", newTag.definition, markQuery)
 						}
 					}
 				}
